@@ -43,11 +43,15 @@ class Spellings(Job):
         S.p = [[[V.float(f"p{c}_{s}_{q}", lo=-1024, hi=1024) for q in range(self.ntests)] for s in range(self.streams)]
                for c in range(self.contexts)]
         S.w = [(V.time(f"w{c}a"), V.time(f"w{c}b")) for c in range(self.contexts)] if self.window else None
+        # "any": the parameter shape of every test is a symbolic choice the explorer enumerates (all combinations)
+        S.sh = [V.int(f"shape{q}", 0, len(SHAPES) - 2) for q in range(self.ntests)] if self.shape == "any" else None
         return S
 
     # -- the logical configuration -----------------------------------------------------------------------------
-    def _kwargs(self, x, q):
+    def _kwargs(self, x, q, S=None):
         sh = self.shape
+        if sh == "any":
+            sh = SHAPES[int(S.sh[q])]
         if sh == "mixed":
             sh = ["scalars", "lists", "dict1", "none", "empty"][q % 5]
         if sh == "scalars":
@@ -74,7 +78,7 @@ class Spellings(Job):
                 mods = OrderedDict()
                 for q in range(self.ntests):
                     m, t = TESTS[q % len(TESTS)]
-                    mods.setdefault(m, OrderedDict())[t] = self._kwargs(S.p[c][s][q], q)
+                    mods.setdefault(m, OrderedDict())[t] = self._kwargs(S.p[c][s][q], q, S)
                 if self.unknown:
                     mods.setdefault("qartod", OrderedDict())["not_a_test"] = {"foo": [1, None]}
                     mods["not_a_module"] = OrderedDict({"gross_range_test": {"fail_span": [0, 1]}})
@@ -291,6 +295,13 @@ def jobs(tier):
     for sh in SHAPES:
         out.append(Spellings(sh, streams=1, tests=2))
         out.append(Spellings(sh, streams=2, tests=2))
+    out.append(Spellings("any", streams=1, tests=2))
+    out.append(Spellings("any", streams=2, tests=2))
+    out.append(Spellings("any", streams=1, tests=1))
+    out.append(Spellings("any", streams=1, tests=2, unknown=True))
+    if tier == "thorough":
+        out.append(Spellings("any", streams=1, tests=3))
+        out.append(Spellings("any", streams=2, tests=2, contexts=2, window=True))
     out.append(Spellings("scalars", streams=1, tests=1))
     out.append(Spellings("none", streams=1, tests=1))
     out.append(Spellings("dict2", streams=1, tests=1))
@@ -314,8 +325,9 @@ OUTSIDE = ["carrier formats (YAML/JSON text, StringIO, file paths, xarray attrib
            "each explored configuration's path witness is pushed through the real carriers (one concrete run per path)",
            "per-variable xarray attributes (ioos_qc_module/test/target/config)", "configuration trees beyond the enumerated parameter shapes",
            "GeoJSON regions are one concrete polygon (shapely is compiled code)", "a module or test whose value is not a mapping (e.g. `qartod: null`)"]
-ASSUMPTIONS = ["parameter-value *shapes* (scalar / list / null / {} / nested dict depth 1-2 / mixed) are enumerated as jobs; the scalar "
-               "leaves and window bounds are symbolic and must come back unchanged"]
+ASSUMPTIONS = ["parameter-value *shapes* (scalar / list / null / {} / nested dict depth 1-2) are a symbolic choice per test that the path "
+               "explorer enumerates in all combinations ('any' jobs) or fixed per job; the scalar leaves and window bounds are symbolic and "
+               "must come back unchanged"]
 
 
 def bounds(tier):
